@@ -128,7 +128,8 @@ def diag_dominant_values(r, n, es, blocks):
         vals = {}
         for (i, j) in es:
             if i != j:
-                vals[(i, j)] = gen_value(r, "any")
+                # structurally present entries may be exactly zero (a Jacobian term with a zero concentration)
+                vals[(i, j)] = 0.0 if r.chance(0.12) else gen_value(r, "any")
         for i in range(n):
             s = sum(abs(v) for (a, b), v in vals.items() if a == i) + sum(abs(v) for (a, b), v in vals.items() if b == i)
             vals[(i, i)] = (s + 1.0 + r.unit()) * (1 if r.chance(0.8) else -1)
